@@ -2,7 +2,10 @@ import MCHap.Properties.C06
 #print axioms MCHap.C06.passes_iff
 #print axioms MCHap.C06.rows_iff
 #print axioms MCHap.C06.rows_order
+#print axioms MCHap.C06.rows_unselected
 #print axioms MCHap.C06.cell_spec
+#print axioms MCHap.C06.used_calls_ok
+#print axioms MCHap.C06.calls_spec
 #print axioms MCHap.C06.mergeChar_spec
 #print axioms MCHap.C06.merge_order_independent
 #print axioms MCHap.C06.filter_monotone
